@@ -1,10 +1,31 @@
 import Model.Common.Proto
-open Btc
+import Model.C15.Wire
+import Generated.Miniscript
+open Btc Btc.Miniscript Btc.Miniscript.Wire
 
 /-- line protocol of property C15: see harness/c15.py -/
+def withMs (ctx : String) (toks : List String) (k : Ctx → Ms → String) : String :=
+  match ctxOf? ctx, readMs toks with
+  | some c, some (n, []) => k c n
+  | _, _ => "bad-op"
+
 def handle : List String → String
-  -- one line per generated module this driver serves, e.g.
-  -- | "gen" :: "VarInt" :: fn :: args => (Gen.VarInt.dispatch fn args).getD "bad-op"
+  | "gen" :: "Miniscript" :: fn :: args => (Gen.Miniscript.dispatch fn args).getD "bad-op"
+  | "type" :: ctx :: toks => withMs ctx toks fun c n => s!"ok {(typeOf c n).render}"
+  | "size" :: ctx :: toks => withMs ctx toks fun c n => s!"ok {scriptSize c n}"
+  | "shape" :: ctx :: toks => withMs ctx toks fun c n => if shaped c n then "ok" else "err value"
+  | "valid" :: ctx :: toks => withMs ctx toks fun c n => s!"ok {if isValid c n then "True" else "False"}"
+  | "script" :: ctx :: tbl :: toks =>
+    match readTable tbl with
+    | none => "bad-op"
+    | some t => withMs ctx toks fun c n =>
+      match script c (lookup t) n with
+      | some b => s!"ok {toHex b}"
+      | none => "err value"
+  | "pushnum" :: [n] =>
+    match n.toNat? with
+    | some n => s!"ok {toHex (pushNum n)}"
+    | none => "bad-op"
   | _ => "bad-op"
 
 def main : IO Unit := runLoop handle
